@@ -13,6 +13,8 @@ dirty = sh("git -C /repo status --porcelain").stdout.strip()
 if dirty:
     print("refusing to run: /repo has uncommitted changes:\n" + dirty); sys.exit(2)
 for d in sorted(glob.glob("/verif/seeded/*/")):
+    if not os.path.exists(d + "meta.json"):
+        continue
     meta = json.load(open(d + "meta.json"))
     if want and meta["id"] not in want and meta["property"] not in want:
         continue
